@@ -52,7 +52,7 @@ def cases(tier, seed, shard, nshards):
                 yield {"kind": "dags", "n": n, "lo": lo, "hi": min(total, lo + CHUNK), "seed": rng.getrandbits(32)}
             idx += 1
     for i in range(N_SIM[tier]):
-        c = _sim.random_sim_case(rng, small=True)
+        c = _sim.random_sim_case(rng, small=True, algos=_sim.ALGOS_PLUS)
         yield c
     for i in range(N_MIX[tier]):
         yield _exec.mix_case(rng, i, steps=rng.choice([30, 60]), p_bad=0.0, p_suspend=rng.choice([0.0, 0.5]),
